@@ -17,12 +17,14 @@ RULE = ('A generated ledger (G1, comment-dense) parsed with attribution on or of
         '[-len-1, len], slices with steps +-1 +-2, in, index, count, ==; mapping keys/values/items/get/in), == / != between models, hash of '
         'tokens, repr, copy.deepcopy, print_model, .tokens, iter_children_formatted, and the attribution calls auto_claim_comments (any '
         'model), claim_/unclaim_leading/trailing_comment (both ignore flags), claim_/unclaim_interleaving_comments (all or a subset). '
+        'a second job first edits the document (value / slot / list / view / copy / arithmetic / token edits) and reads afterwards, so that lazily built '
+        'views are first read on the edited document; an enumeration does the same for custom value lists edited through the raw list. '
         'Oracle after every action: the list of visible tokens (raw_text != "") by identity and text, and the printed text, are unchanged. '
         'Non-trivial = the program contains an attribution call that moved a placeholder or changed an owner, on a document with a comment.')
 ASSUMPTIONS = ['an exception raised by a read (e.g. hash of a tree model) is not a violation; the document is still compared',
                'mutators are never called: callables are invoked only from a whitelist']
 SHRINK_LISTS = ('ops', 'dirs')
-REQUIRED_CLASSES = ('lf:4', 'act:attrs', 'act:wrappers', 'act:claim', 'act:copy', 'claim:on', 'claim:off', 'attribution-changed')
+REQUIRED_CLASSES = ('after-edit', 'lf:4', 'act:attrs', 'act:wrappers', 'act:claim', 'act:copy', 'claim:on', 'claim:off', 'attribution-changed')
 
 CLAIM_OPS = ['auto', 'claim_leading_comment', 'unclaim_leading_comment', 'claim_trailing_comment', 'unclaim_trailing_comment',
              'claim_interleaving_comments', 'unclaim_interleaving_comments', 'claim_interleaving_subset', 'unclaim_interleaving_subset']
@@ -109,6 +111,14 @@ def _run(case: dict) -> Result:
         printed0 = O.print_text(root)
         own0 = ownership(root)
         what = op.get('what')
+        if op.get('f') != 'read':
+            # an edit: the document the following reads must leave alone is the edited one (views not yet built are first read after it)
+            try:
+                OPS.resolve(root, op).run()
+                classes.add('after-edit')
+            except Exception:  # noqa: BLE001 - edits are other properties' subject
+                pass
+            continue
         try:
             _act(root, idx, op, classes)
         except OPS.NotApplicable:
@@ -353,6 +363,52 @@ def _build(tier: str):
     return build
 
 
+EDIT_FAMS = ['val', 'val', 'opt', 'req', 'list', 'list', 'view', 'copyins', 'popins', 'arith', 'tok']
+READS = ['attrs', 'wrappers', 'eq', 'repr', 'copy', 'print', 'tokens', 'children']
+
+
+def _build_edited(tier: str):
+    """Documents reached by edits, then reads: lazily built views and caches are first read after the edit."""
+    cfg = L.Cfg(max_dirs=4 if tier == 'quick' else 8, comments=0.3)
+
+    def build(rnd: Any) -> dict:
+        g = L.G(rnd, cfg)
+        claim = g.p(0.7)
+        case = OPS.build_program(rnd, cfg, EDIT_FAMS, 5, lambda t: common.parse_file(t, claim), stick=0.5)
+        out = []
+        for op in case['ops']:
+            # values that begin with a sign are legal list elements (the caller is responsible for what they mean next to a number)
+            for d in list(op.get('donors') or []) + ([op['donor']] if isinstance(op.get('donor'), dict) else []):
+                if op.get('prop') == 'raw_values' and d.get('k') in ('number_expr', 'amount') and g.p(0.6):
+                    d['t'] = '-' + str(g.n(1, 99)) + (' USD' if d['k'] == 'amount' else '')
+            out.append(op)
+            if g.p(0.5):
+                out.append({'f': 'read', 'what': g.pick(READS), 'mi': g.n(0, 30)})
+        for _ in range(g.n(1, 3)):
+            out.append({'f': 'read', 'what': g.pick(READS), 'mi': g.n(0, 30)})
+        case['ops'] = out
+        case['claim'] = claim
+        case['lf'] = 1000
+        return case
+    return build
+
+
+def _enum_custom():
+    """Custom directives whose value list is edited through the raw list (sign-leading values next to numbers included), then each read."""
+    import itertools
+    heads = ['2000-01-01 custom "t" 100\n', '2000-01-01 custom "t" 100 "s"\n', '2000-01-01 custom "t" 1 USD\n', '2000-01-01 custom "t"\n', '2000-01-01 custom "t" (3)\n']
+    donors = [{'k': 'number_expr', 't': '-25'}, {'k': 'number_expr', 't': '+25'}, {'k': 'amount', 't': '-25 USD'}, {'k': 'number_expr', 't': '25'},
+              {'k': 'number_expr', 't': '(-25)'}, {'k': 'ESCAPED_STRING', 't': '"x"'}]
+    for head, d1, d2, read, claim in itertools.product(heads, donors, [None] + donors[:3], READS, (True, False)):
+        ops = [{'f': 'list', 'cls': 'Custom', 'mi': 0, 'prop': 'raw_values', 'op': 'append', 'donors': [d1]}]
+        if d2 is not None:
+            ops.append({'f': 'list', 'cls': 'Custom', 'mi': 0, 'prop': 'raw_values', 'op': 'insert', 'i': 0, 'donors': [d2]})
+        ops.append({'f': 'read', 'what': read, 'mi': 0})
+        yield {'dirs': [[['X', head]]], 'ops': ops, 'claim': claim, 'lf': 1000}
+
+
 def jobs(tier: str) -> list[Job]:
     return [Job('programs', 'hyp', lambda: _build(tier), 2500 if tier == 'quick' else 60000),
+            Job('reads-after-edits', 'hyp', lambda: _build_edited(tier), 2000 if tier == 'quick' else 60000),
+            Job('custom-raw-edits-then-reads', 'enum', _enum_custom, exhaustive=True),
             Job('claim-pingpong', 'hyp', lambda: _build_pingpong(tier), 4000 if tier == 'quick' else 150000)]
